@@ -112,6 +112,18 @@ func applyOp(u *url.Url, op core.Op) *url.Url {
 		_ = u.SearchParams().Has(op.Arg(0))
 	case "sp.string":
 		_ = u.SearchParams().String()
+	case "setsp-self":
+		u.SetSearchParams(u.SearchParams())
+	case "setsp-clone":
+		u.SetSearchParams(u.Clone().SearchParams())
+	case "setsp-roundtrip":
+		o := u.Clone()
+		old := u.SearchParams()
+		u.SetSearchParams(o.SearchParams())
+		o.SetSearchParams(old)
+		_ = old.String()
+		old.Append("z", "1")
+		_ = o.Href(false)
 	default:
 		obs.ApplySetter(u, op.Name, op.Arg(0))
 	}
